@@ -2,7 +2,7 @@
    (to_absolute_note, correct_chord_octave), C10 (decompose_duration), C14 (to_scale_note / to_standard_note
    go through Chord.parse).  The other re-notations are evaluated on the implementation by the oracle. *)
 From ML Require Import Model.Types gen.Tables Model.Pitch Model.Rel Model.Ton Model.Render Model.Slice Model.Renote.
-From ML Require Import Spec.PitchSpec Spec.RenderSpec Proofs.PitchProofs Proofs.RenderProofs Proofs.RenoteProofs Proofs.RenoteScore.
+From ML Require Import Spec.PitchSpec Spec.RenderSpec Proofs.PitchProofs Proofs.RenderProofs Proofs.RenoteProofs Proofs.RenoteScore Proofs.RenoteStandard.
 Open Scope Z_scope.
 
 (* to_absolute_note: along the timeline of a part (relative notes have an earlier pitched note since the part was
@@ -50,6 +50,25 @@ Theorem C11_correction_terminates : forall fuel c bass rest,
   1 <= Z.of_nat fuel -> bass - 6 <= 12 * (Z.of_nat fuel - 1) -> -6 - bass < 12 * (Z.of_nat fuel - 1) ->
   exists c', correct_octave fuel c = Some c'.
 Proof. exact correction_terminates. Qed.
+
+(* to_standard_note on chord tones and bass tones: for EVERY chord (any figure with any replacements / additions / removals, any
+   tonality, any octave) and every value and octave of the note, the scale or chromatic note written for it has the same pitch *)
+Theorem C11_to_standard_note : forall c n n', (pkind n = KC \/ pkind n = KB) -> pdir n = Abs ->
+  note_to_standard c n = Some n' -> to_pitch_abs c n' = to_pitch_abs c n /\ is_sh n' = true.
+Proof. exact to_standard_keeps_pitch. Qed.
+
+(* ... and on absolute notes: re-notated by Chord.parse of the pitch, as a plain scale or chromatic note without mode or accidental
+   (the mode an absolute note may carry no longer colours the scale note: repaired) *)
+Theorem C11_to_standard_absolute : forall c n n', elem_ok c -> pkind n = KA -> pdir n = Abs ->
+  note_to_standard c n = Some n' -> to_pitch_abs c n' = to_pitch_abs c n /\ pmode n' = None /\ pacc n' = None.
+Proof. exact to_standard_absolute. Qed.
+
+Example C11_ex_standard :
+  let c := mkC 4 (bare "65") (mkT 0 MMaj 0) 0 in
+  note_to_standard c (mkP KC Abs 1 1 None None) = Some (mkP KS Abs 2 1 None None) /\
+  to_pitch_abs c (mkP KC Abs 1 1 None None) = Some (Some 23) /\
+  note_to_standard c (mkP KB Abs 0 0 None None) = Some (mkP KS Abs 2 0 None None).
+Proof. exact to_standard_ex. Qed.
 
 Example C11_ex :
   let c := mkRC (mkC 4 (bare "6") (mkT 9 MMin 0) 2) [("p"%string, [mkTN (plain KS 0 0) 1 66; mkTN (plain KA 3 1) 1 66])] in
